@@ -93,16 +93,35 @@ fn run_resource(sx: &sexpr::Sx) -> Vec<String> {
         let mut dep = None;
         let mut res = None;
         let (s2, st2) = (senders.clone(), started.clone());
+        // `(resource (STEPS) sus)`: the resource is created under a suspense boundary and read there by an effect (as a view would);
+        // every line gets a field `sus=<0|1>`: the boundary's is_loading
+        let under_sus = sx.list().len() > 2 && sx.list()[2].atom() == "sus";
+        let mut boundary = None;
         let root = create_root(|| {
             let d = create_signal(0i64);
             dep = Some(d);
-            res = Some(create_isomorphic_resource(on(d, move || {
-                let v = d.get();
-                let (tx, rx) = oneshot::channel::<i64>();
-                s2.borrow_mut().push(Some(tx));
-                st2.borrow_mut().push(v);
-                async move { rx.await.unwrap_or(-1) }
-            })));
+            let mk = move || {
+                create_isomorphic_resource(on(d, move || {
+                    let v = d.get();
+                    let (tx, rx) = oneshot::channel::<i64>();
+                    s2.borrow_mut().push(Some(tx));
+                    st2.borrow_mut().push(v);
+                    async move { rx.await.unwrap_or(-1) }
+                }))
+            };
+            if under_sus {
+                let (r, scope) = sycamore_futures::create_suspense_scope(|| {
+                    let r = mk();
+                    create_effect(move || {
+                        let _ = r.get_clone();
+                    });
+                    r
+                });
+                res = Some(r);
+                boundary = Some(scope.is_loading());
+            } else {
+                res = Some(mk());
+            }
         });
         let (dep, res) = (dep.unwrap(), res.unwrap());
         // `(resource (STEPS) fb)`: a feedback edge from the resource's value to its dependency, behind a selector: when the
@@ -125,12 +144,16 @@ fn run_resource(sx: &sexpr::Sx) -> Vec<String> {
         let observe = |out: &mut Vec<String>| {
             let v = root.run_in(|| untrack(|| res.get_clone_untracked()));
             let l = root.run_in(|| untrack(|| res.is_loading()));
-            out.push(format!(
+            let mut line = format!(
                 "value={} loading={} started={}",
                 v.map(|x| x.to_string()).unwrap_or_else(|| "none".into()),
                 l as u8,
                 started.borrow().len()
-            ));
+            );
+            if let Some(b) = boundary {
+                line.push_str(&format!(" sus={}", b.get_untracked() as u8));
+            }
+            out.push(line);
         };
         settle().await;
         observe(&mut out);
